@@ -5,9 +5,9 @@ from runner import Inv, Merged
 ID = "C14"
 MANIFEST = (
     "exploration",
-    "differential runtime monitoring: twin runs of the monitored solver on a tissue and on its translated copy (single thread, deterministic RNG through hook H2), compared node by node; noise twins (inputs perturbed by 1e-13 relative) of both the reference and the translated input separate a systematic position dependence from chaotic amplification",
+    "differential runtime monitoring: twin runs of the monitored solver on a tissue and on its translated copy (single thread, deterministic RNG through hook H2), compared node by node at the end of the run and right after the first division of the run; noise twins (inputs perturbed by 1e-13 relative and shifted by 1e-11 L) of both the reference and the translated input separate a systematic position dependence from chaotic amplification; contacts whose sign test is decided by rounding are detected through hook H6 and end the final-state comparison; metamorphic probe of the centroid the division code reads",
     "Held on every compared pair of runs (quick: ~40 tissues x 4 translations x 20-40 iterations; thorough: thousands): single dividing cells, adhering grids, overlapping pairs of different classes, nucleus in cell, cell in ECM, lumen among cells, mixed populations with removal; translations sub-voxel, exactly one voxel, many voxels, across the origin, a few extents, up to 32 tissue extents, binary-exact; the translated run must reach the same cell count, slot-by-slot identical connectivity, positions equal to the translated reference positions and equal volumes / pressures within forward-error tolerances. Exploration is the right level: trajectories are long compositions of floating-point operations; only differential execution decides them.",
-    "Tolerances: positions max(1e-9 L, 10 tolV L), volume/pressure tolV = max(1e-9, 64 eps sqrt(F)(1+D/r)^3) - the error any evaluation of the documented origin-relative volume formula has at distance D; |t| <= 32 tissue extents (beyond that the formula itself cancels); references whose own 1e-13 noise twins already scatter by more than 1e-10 L are skipped as ill-conditioned (counted); a difference is a violation only if reference family and translated family are each tight and apart from each other.",
+    "Tolerances: positions 1e-8 L, volume/pressure 1e-9 relative, at every distance (|t| <= 32 tissue extents); references whose own noise twins already scatter by more than 1e-10 L are skipped as ill-conditioned (counted); the final state is not compared when a contact of the run was decided by rounding (node within 1e-7 of the plane of a face whose closest point is on its boundary: after a division the rim nodes of one daughter lie exactly in the plane of interface faces of the other) - the state right after the first division still is; a difference is a violation only if reference family and translated family are each tight and apart from each other.",
     "DESIGN.md section 3, C14",
 )
 
@@ -21,10 +21,19 @@ def run(tier, seed, t0):
     n = T(tier, 126, 2100)
     R.run_inv(Inv("translate", n, "plain", args=["--translations=%d" % T(tier, 4, 8), "--min_iterations=%d" % T(tier, 20, 40), "--max_iterations=%d" % T(tier, 40, 300)], timeout=T(tier, 1800, 8 * 3600)), seed, wd, m)
     kinds = ["sub_voxel", "exactly_one_voxel", "many_voxels", "across_origin", "far_up_to_32_extents", "binary_exact", "few_extents"]
+    # the centroid the division code reads (nodes moved since the force phase) must follow a translation of the cell
+    mh = Merged(); nh = T(tier, 1200, 40000)
+    R.run_inv(Inv("geometry_hist", nh, "plain", args=["--translate_probe=1"], timeout=T(tier, 900, 4 * 3600), first=5000000, tag="geometry_hist/translate_probe"), seed, wd, mh)
+    mh.violations = [v for v in mh.violations if v.get("crash") or "does_not_follow_translation" in v["key"]]
+    m.violations += mh.violations; m.inconclusive += mh.inconclusive; m.harness_failures += mh.harness_failures
+    m.add_bins({"centroid_translation_probes": mh.bins.get("hist_translation_probes", 0)}); m.maxima.update({"translate_probe_dev_over_tol": mh.maxima.get("translate_probe_dev_over_tol", 0)})
     floors = {"well_conditioned_tissues": (m.nontrivial, 0.4 * n), "translations_compared": (m.bins.get("translations_compared", 0), 1.5 * n)}
     for k in kinds:
         floors["translation_" + k] = (m.bins.get("translation:" + k, 0), 0.15 * n)
     # at most half of the compared translations may end inconclusive (both families ill-conditioned)
+    floors["final_states_compared"] = (m.bins.get("final_states_compared", 0), 2.0 * n)
+    floors["first_divisions_compared"] = (m.bins.get("first_divisions_compared", 0), 0.3 * n)
+    floors["centroid_translation_probes"] = (m.bins.get("centroid_translation_probes", 0), nh)
     floors["conclusive_translations"] = (m.bins.get("translations_compared", 0) - m.bins.get("translations_inconclusive", 0), 0.75 * m.bins.get("translations_compared", 0))
     return R.finish(ID, tier, seed, m,
                     "case = tissue scenario (7 families at the physical scale of the sample inputs, random parameters) x 4-8 translations of 7 kinds; per case 3 "
